@@ -38,6 +38,8 @@ as get_sync_*_methods() returns them (C17-c).
 Round 7: the generic reader of Data(n) is as strict as the generated StructUnpack (d''); members
 filtered out of a run must have no-op pack / unpack; runs regrouped through a mapping or built member
 by member under a test other than "same endianness"; the annotate option may be decided at use time.
+Round 8: a single-pass generator flushes its pending run before any other block; constant
+sub-templates are spliced into the driver templates; options kept in another form have no verdict.
 """
 import ast
 
